@@ -110,6 +110,13 @@ func runE2E(ec E2ECase) (*Fail, []string, map[string]int, error) {
 	if err != nil || n != len(buf) {
 		return fail("restart|read-failed", fmt.Sprintf("read after restart: n=%d err=%v", n, err), "C09"), x.Trace, labels, nil
 	}
+	if d := x.Live.Diff(buf, 0); d != "" && x.subBlockHit(started, buf, 0) {
+		// the elected replica took a write that is not block aligned while it was
+		// rebuilding: its image has been off since its promotion (the known finding of
+		// C07, DESIGN 7.2) - not what this check is about
+		labels["restart:elected-replica-carries-the-known-sub-block-finding"]++
+		return nil, x.Trace, labels, nil
+	}
 	if d := x.Live.Diff(buf, 0); d != "" {
 		// which acknowledged write is missing, and how many up-to-date (RW)
 		// replicas held it when it was acknowledged?
